@@ -3,7 +3,7 @@
     One harness case carries: the graph, the translated+bound plan [b], the plan
     [Optimizer::optimize] returned under each of the 8 switch combinations, and the rows the engine
     produced.  [chk_opts] is the correspondence for the rewrites, [chk_sem] the one for [sem];
-    [k_opts] is the finding class evaluated on a case whose oracle failed. *)
+    [k_class] is the finding class evaluated on a case whose oracle failed. *)
 From Coq Require Import ZArith List Bool String.
 Import ListNotations.
 From GV Require Export Query.Plan Query.Opt.
@@ -65,13 +65,14 @@ Definition k_reorder_opts (b : plan) (afters : list (nat * plan)) : bool :=
   existsb (fun ma => sw_jr (fst ma) && k_reorder (if sw_fp (fst ma) then pfd b else b) (snd ma)) afters.
 
 (** *** classes that come from the executor, not from the rewrites
-    3: [FilterOperator] forgets the selection of its input (Plan.v, [semq]); push-down creates and
-       removes Filter-on-Filter stacks, so the *same* predicates give different rows.
     4: [x.p] on an edge variable evaluated above an operator whose output vectors are untyped
        (joins, the nested loop of a chained NodeScan, Project, ...) is answered from the *node*
        with the same id (filter.rs: "try as node first" on a Generic column); below it (typed
-       EdgeId column) it is answered from the edge.  Push-down moves the predicate across. *)
-Definition k_stack_opts (b : plan) (afters : list (nat * plan)) : bool :=
+       EdgeId column) it is answered from the edge.  Push-down moves the predicate across.
+    (3, repaired by df57ccb: [FilterOperator] forgot the selection of its input (Plan.v,
+       [semq_pre]); push-down creates and removes Filter-on-Filter stacks, so the *same* predicates
+       gave different rows.  [k_stack_opts_pre] was its class; it no longer excuses anything.) *)
+Definition k_stack_opts_pre (b : plan) (afters : list (nat * plan)) : bool :=
   existsb (fun ma => negb (conds_perm (stack_sig b) (stack_sig (snd ma)))) afters.
 
 Fixpoint edge_vars (p : plan) : list var :=
@@ -112,15 +113,44 @@ Definition k_edge_opts (b : plan) (afters : list (nat * plan)) : bool :=
   let evs := edge_vars b in
   edge_prop_untyped evs b || existsb (fun ma => edge_prop_untyped evs (snd ma)) afters.
 
+(** 5: [Planner::plan_expand_chain] runs two or more consecutive single-hop Expands through
+       [LazyFactorizedChainOperator]; a hop that matches nothing adds no level
+       (factorized_expand.rs [expand_deepest_level]: "Add the new level if there are any edges"), and
+       flattening then yields the rows of the shallower levels — too few columns — instead of no
+       rows.  Next to a join the columns of the other side are read at the wrong positions, so a
+       predicate above the join sees NULL where the same predicate pushed below sees the value.
+       Decided on the graph: some chain of the plan has a hop without rows over a non-empty input. *)
+Definition is_expand (p : plan) : bool := match p with PExpand _ _ _ _ _ _ => true | _ => false end.
+Definition isnil {A} (l : list A) : bool := match l with [] => true | _ => false end.
+
+Fixpoint dry_chain (G : graph) (in_chain : bool) (p : plan) : bool :=
+  match p with
+  | PExpand _ _ _ _ _ i =>
+      ((in_chain || is_expand i) && isnil (sem G p) && negb (isnil (sem G i))) || dry_chain G true i
+  | PScanIn _ _ i | PFilter _ i | PProject _ i | PReturn _ _ i | PAgg _ _ i
+  | PSort _ i | PSkip _ i | PLimit _ i | PDistinct i => dry_chain G false i
+  | PJoin _ _ l r | PLeftJoin l r | PUnion l r => dry_chain G false l || dry_chain G false r
+  | PEmpty | PScan _ _ => false
+  end.
+
+Definition k_chain_opts (G : graph) (b : plan) (afters : list (nat * plan)) : bool :=
+  dry_chain G false b || existsb (fun ma => dry_chain G false (snd ma)) afters.
+
 (** the class of a failing case: 0 = none of the listed ones *)
 Definition k_class (b : plan) (afters : list (nat * plan)) : nat :=
   if k_push_opts b afters then 1%nat
   else if k_reorder_opts b afters then 2%nat
   else if k_edge_opts b afters then 4%nat
-  else if k_stack_opts b afters then 3%nat
   else 0%nat.
 
-(** *** engine rows against the model ([sem_e] = [sem] with the engine's stacked filters) *)
+Definition k_class_g (G : graph) (b : plan) (afters : list (nat * plan)) : nat :=
+  match k_class b afters with
+  | O => if k_chain_opts G b afters then 5%nat else 0%nat
+  | n => n
+  end.
+
+(** *** engine rows against the model ([sem_e] = the semantics with the engine's selection vectors;
+    equal to [sem] since df57ccb, proved in ProofsOptTop) *)
 Definition vals (r : row) : list val := map (fun kv => as_value (snd kv)) r.
 
 Fixpoint remove_vals (x : list val) (l : list (list val)) : option (list (list val)) :=
